@@ -4,10 +4,8 @@ import (
 	"bytes"
 	"encoding/binary"
 	"fmt"
-	"math/big"
 
 	agglayertypes "github.com/agglayer/aggkit/agglayer/types"
-	"github.com/ethereum/go-ethereum/common"
 	"verif/h/mc"
 	"verif/h/ref"
 	"verif/h/world"
@@ -87,12 +85,12 @@ func exitString(e *agglayertypes.BridgeExit) string {
 		return "<nil>"
 	}
 	return fmt.Sprintf("{type=%d origin=%d/%s dest=%d/%s amount=%v metadata=%x}", e.LeafType, e.TokenInfo.OriginNetwork,
-		e.TokenInfo.OriginTokenAddress.Hex()[:10], e.DestinationNetwork, e.DestinationAddress.Hex()[:12], e.Amount, e.Metadata)
+		e.TokenInfo.OriginTokenAddress.Hex(), e.DestinationNetwork, e.DestinationAddress.Hex(), e.Amount, e.Metadata)
 }
 
 func depString(d *world.Deposit) string {
 	return fmt.Sprintf("{net=%d count=%d type=%d origin=%d/%s dest=%d/%s amount=%v metadata=%x}", d.Net, d.Count, d.LeafType,
-		d.OriginNetwork, d.OriginAddress.Hex()[:10], d.DestinationNetwork, d.DestinationAddress.Hex()[:12], d.Amount, d.Metadata)
+		d.OriginNetwork, d.OriginAddress.Hex(), d.DestinationNetwork, d.DestinationAddress.Hex(), d.Amount, d.Metadata)
 }
 
 // OracleC03 checks one built certificate against property C03.
@@ -113,22 +111,25 @@ func OracleC03(c *mc.Ctx, b *Built) {
 
 	// --- metadata encodes the block range (decoded here from the byte layout, version 2) ---
 	md := cert.Metadata
+	// (createdAt is wall-clock time: it is compared, but never printed, so that replays are identical)
+	shown := md
+	copy(shown[13:17], []byte{0, 0, 0, 0})
 	mFrom := binary.BigEndian.Uint64(md[1:9])
 	mOff := binary.BigEndian.Uint32(md[9:13])
 	mCreated := binary.BigEndian.Uint32(md[13:17])
 	switch {
 	case md[0] != 2:
-		c.Failf("metadata/version", "%s: metadata %x has version %d, want 2", b.Where(), md, md[0])
+		c.Failf("metadata/version", "%s: metadata (createdAt masked) %x has version %d, want 2", b.Where(), shown, md[0])
 	case mFrom != from:
-		c.Failf("metadata/from-block", "%s: metadata %x encodes fromBlock %d, the certificate covers [%d,%d]", b.Where(), md, mFrom, from, to)
+		c.Failf("metadata/from-block", "%s: metadata (createdAt masked) %x encodes fromBlock %d, the certificate covers [%d,%d]", b.Where(), shown, mFrom, from, to)
 	case uint64(mOff) != to-from:
-		c.Failf("metadata/offset", "%s: metadata %x encodes offset %d, the certificate covers [%d,%d] (offset %d)", b.Where(), md, mOff, from, to, to-from)
+		c.Failf("metadata/offset", "%s: metadata (createdAt masked) %x encodes offset %d, the certificate covers [%d,%d] (offset %d)", b.Where(), shown, mOff, from, to, to-from)
 	case mCreated != b.Params.CreatedAt:
-		c.Failf("metadata/created-at", "%s: metadata encodes createdAt %d, build params say %d", b.Where(), mCreated, b.Params.CreatedAt)
+		c.Failf("metadata/created-at", "%s: metadata does not encode the build params' createdAt", b.Where())
 	case md[17] != 1:
-		c.Failf("metadata/cert-type", "%s: metadata %x encodes certificate type %d, want 1 (pessimistic proof)", b.Where(), md, md[17])
+		c.Failf("metadata/cert-type", "%s: metadata (createdAt masked) %x encodes certificate type %d, want 1 (pessimistic proof)", b.Where(), shown, md[17])
 	case !bytes.Equal(md[18:], make([]byte, 14)):
-		c.Failf("metadata/trailing-bytes", "%s: metadata %x has non-zero trailing bytes", b.Where(), md)
+		c.Failf("metadata/trailing-bytes", "%s: metadata (createdAt masked) %x has non-zero trailing bytes", b.Where(), shown)
 	}
 
 	// --- bridge exits = the bridge events of [from,to], in chain order, every field preserved ---
@@ -247,6 +248,3 @@ func OracleC03(c *mc.Ctx, b *Built) {
 	}
 	c.Distinct(fmt.Sprintf("%d|%s|%d|%d-%d|%s", b.Stage, b.Prev, b.MaxSize, from, to, cert.NewLocalExitRoot.Hex()))
 }
-
-var _ = big.NewInt
-var _ = common.Hash{}
